@@ -685,3 +685,81 @@ func init() {
 		},
 	})
 }
+
+func init() {
+	register(&Rule{
+		Name:  "REUSED-POSTING",
+		Floor: 4,
+		Doc:   "the Posting an iterator hands out is a field of the iterator that is reused for every call: on every path to a return that hands it out, each of its fields (docNum, freq, norm, locs) was stored in this call — by a whole-struct store or field by field — so nothing of the previous posting (e.g. its locations) is visible through the new one",
+		Run: func(c *Ctx, scope string, r *Report) {
+			fn := c.MustFn("(*PostingsIterator).nextAtOrAfter")
+			st := c.StructOf("Posting")
+			targets := map[ssa.Value]bool{}
+			for _, b := range fn.Blocks {
+				for _, ins := range b.Instrs {
+					if fa, ok := ins.(*ssa.FieldAddr); ok && fa.X == ssa.Value(fn.Params[0]) {
+						if _, f := fieldAddrInfo(fa); f != nil && namedOf(f.Type()) != nil && namedOf(f.Type()).Obj().Name() == "Posting" {
+							targets[fa] = true
+						}
+					}
+				}
+			}
+			if len(targets) == 0 {
+				r.undecided(fnName(fn)+"/posting", fnName(fn), c.pos(fn.Pos()), "the iterator no longer hands out a Posting held in one of its own fields: the rule's model is out of date")
+				return
+			}
+			whole := map[*ssa.BasicBlock]bool{}
+			for _, b := range fn.Blocks {
+				for _, ins := range b.Instrs {
+					if s, ok := ins.(*ssa.Store); ok && targets[s.Addr] {
+						whole[b] = true
+					}
+				}
+			}
+			ev := fieldEvents(fn, targets)
+			// returns that hand the posting out
+			var outs []*ssa.BasicBlock
+			for _, b := range fn.Blocks {
+				ret, ok := b.Instrs[len(b.Instrs)-1].(*ssa.Return)
+				if !ok || len(ret.Results) == 0 {
+					continue
+				}
+				v := resolveLoad(ret.Results[0])
+				if mi, ok := v.(*ssa.MakeInterface); ok {
+					v = mi.X
+				}
+				if targets[v] {
+					outs = append(outs, b)
+				}
+			}
+			if len(outs) == 0 {
+				r.undecided(fnName(fn)+"/posting", fnName(fn), c.pos(fn.Pos()), "no return hands out the reused Posting")
+				return
+			}
+			for i := 0; i < st.NumFields(); i++ {
+				f := st.Field(i).Name()
+				key := fnName(fn) + "/posting." + f
+				via := map[*ssa.BasicBlock]bool{}
+				for b := range whole {
+					via[b] = true
+				}
+				for _, e := range ev[f] {
+					if e.kind == "store" {
+						via[e.ins.Block()] = true
+					}
+				}
+				bad := ""
+				for _, ob := range outs {
+					if !coveredOnAllPaths(fn, via, ob) {
+						bad = c.pos(retPos(ob.Instrs[len(ob.Instrs)-1].(*ssa.Return), ob))
+					}
+				}
+				if bad == "" {
+					r.ok(key, fnName(fn), c.pos(fn.Pos()), "."+f+" of the reused Posting is stored on every path before it is handed out")
+				} else {
+					r.bad(key, fnName(fn), c.pos(fn.Pos()), "the reused Posting is handed out at "+bad+" on a path that did not store its ."+f+" in this call: the caller sees the value of the previous posting")
+				}
+			}
+		},
+	})
+}
